@@ -46,6 +46,9 @@ theorem C08_single_tx_append_recover (d : Durable) (l : Log) (ids : List Nat) (k
   rw [writeBlocksSplit_single]
   simpa [exec, hbt, hlenB] using this
 
+/-- what `C08_single_tx_append_recover` relies on in headerfs/index.go (regenerated on every run) -/
+theorem C08_bulk_source_shape : Gen.Store.indexAddOneTransaction = true := by decide
+
 /-- **A split index write does not survive a crash between its transactions**,
 even with the tip moved last: killed before the second of two transactions, the
 restart succeeds and cuts the file back to the recorded tip — the interrupted
